@@ -285,6 +285,8 @@ class Natives(object):
                         args = [ex.eval(st, a) for a in e.args]
                         return METHODS_MUT[f.attr](ex, st, lv, recv, args, e)
             recv = ex.eval(st, f.value)
+            if isinstance(recv.ty, ObjT) and recv.ty.cls == 'ProgBar':
+                return vnone()
             if isinstance(recv.ty, ObjT):
                 return self.call_method(ex, st, recv, f.attr, e)
             if isinstance(recv.ty, FuncT):
@@ -781,14 +783,11 @@ def m_index(ex, st, recv, args, kw, e):
     if not isinstance(ty, ListT):
         raise Undecided('index on %r' % (ty,))
     x = ex.coerce(st, args[0], ty.elem, e, 'index-elem-type')
-    r = z3.Int(fresh_name('idx'))
-    n = L_len(ty, recv.t)
-    j = z3.Int('j!idx')
     present = L_has(ty, recv.t, x.t)
     ex.oblige(st, 'safety', 'list-index-value-present', present, e)
-    st.assume(z3.And(r >= 0, r < n, L_get(ty, recv.t, r) == x.t))
-    st.assume(z3.ForAll([j], z3.Implies(z3.And(j >= 0, j < r), L_get(ty, recv.t, j) != x.t)))
-    return V(INT, r)
+    for f in L_index_facts(ty, recv.t, x.t):
+        st.assume(f)
+    return V(INT, L_index(ty, recv.t, x.t))
 
 
 def m_items(ex, st, recv, args, kw, e):
@@ -850,5 +849,17 @@ def q_cpu_count(ex, st, args, kw, e):
 
 
 QUALIFIED['multiprocessing.cpu_count'] = q_cpu_count
+
+
+def q_progbar(ex, st, args, kw, e):
+    """pyprind.ProgBar(n): a progress bar object; assumed to have no effect on program state"""
+    a = new_addr()
+    st.heap[a] = {}
+    st.fresh_objs.add(a)
+    ex.assumed_log.append('pyprind.ProgBar / update [assumed: no effect on program state]')
+    return V(ObjT('ProgBar'), a)
+
+
+QUALIFIED['pyprind.ProgBar'] = q_progbar
 
 NATIVES = Natives()
